@@ -56,6 +56,8 @@ def check(ctx, tier):
     pack_rules(ctx, tk)
     window_mask_order(ctx, tk)
     window_admitted(ctx, tk)
+    register_joins(ctx, tk, cls)
+    empty_input(ctx, tk)
     offset_contract(ctx, tk)
     fs = [cls.methods[n] for n in ("pack", "unpack", "__getitem__", "sliding_window")]
     tk.purity("C13.e", fs, "packing and reading do not modify the caller's arrays or the packed data", content_only=True)
@@ -248,6 +250,64 @@ def window_admitted(ctx, tk):
                 elif not eq_fine and verdict is True:
                     verdict, why, node = None, "argument check `%s` not understood" % ast.unparse(x), x
     ctx.decide("C13.g", g, what, verdict, why, node=node, key="window-admitted", engine="E1")
+
+
+def register_joins(ctx, tk, cls):
+    """uint64 registers joined with a Python int (np.append(regs, 0), np.concatenate((regs, [0])), np.hstack) have no common
+    integer type with it: numpy answers float64, and register values above 2**53 lose their low bits before the cast back"""
+    what = "registers are extended with values of the register type (no int64 / float64 promotion on the way)"
+    n = 0
+    for name, m in sorted(cls.methods.items()):
+        for x in ast.walk(m.node):
+            if not (isinstance(x, ast.Call) and isinstance(x.func, ast.Attribute) and x.func.attr in ("append", "concatenate", "hstack", "r_")):
+                continue
+            n += 1
+            operands = list(x.args)
+            if x.func.attr in ("concatenate", "hstack") and operands and isinstance(operands[0], (ast.Tuple, ast.List)):
+                operands = list(operands[0].elts)
+            regs = [o for o in operands if any(isinstance(y, ast.Attribute) and y.attr == "_data" for y in ast.walk(o))]
+            untyped = [o for o in operands if (isinstance(o, ast.Constant) and isinstance(o.value, int)) or
+                       (isinstance(o, (ast.List, ast.Tuple)) and all(isinstance(e, ast.Constant) for e in o.elts))]
+            if regs and untyped:
+                ctx.violated("C13.h", m, what, "`%s` joins the uint64 registers with the untyped `%s`: the result is float64 (uint64 and int64 have no common integer type), "
+                             "exact only below 2**53" % (ast.unparse(x), ast.unparse(untyped[0])), node=x, engine="KB")
+            elif regs:
+                ctx.holds("C13.h", m, what, node=x, engine="KB")
+    if n == 0:
+        ctx.holds("C13.h", cls.methods["sliding_window"], what + " [no joins]", engine="KB")
+
+
+def empty_input(ctx, tk):
+    """pack accepts every length, 0 included: array.min() / array.max() raise ValueError on an empty array, so a value check built on
+    them must be skipped for empty input"""
+    f = ctx.func(BA + "pack")
+    fa = ctx.fa(f)
+    what = "packing an empty array is not refused (no extremum of the input without a size test)"
+    bad = None
+    for n in fa.cfg.nodes:
+        if n.ast is None or not fa.cfg.is_reachable(n) or n.kind not in ("test", "stmt"):
+            continue
+        for x in ast.walk(n.ast):
+            if isinstance(x, ast.Call) and ((isinstance(x.func, ast.Attribute) and x.func.attr in ("min", "max", "amin", "amax", "ptp")) ) and not any(k.arg == "initial" for k in x.keywords):
+                recv = x.func.value if not (isinstance(x.func.value, ast.Name) and x.func.value.id in ("np", "numpy")) else (x.args[0] if x.args else None)
+                if recv is None or not any(isinstance(y, ast.Name) and y.id in f.params for y in ast.walk(recv)):
+                    continue
+                sized = any(any((isinstance(y, ast.Attribute) and y.attr == "size") or (isinstance(y, ast.Call) and isinstance(y.func, ast.Name) and y.func.id == "len") for y in ast.walk(test.ast))
+                            for test, truth in fa.cfg.facts_at(n))
+                def mentions_size(e):
+                    return any((isinstance(y, ast.Attribute) and y.attr == "size") or (isinstance(y, ast.Call) and isinstance(y.func, ast.Name) and y.func.id == "len") for y in ast.walk(e))
+                in_stmt_guard = False
+                for b in ast.walk(n.ast):
+                    if isinstance(b, ast.BoolOp):
+                        for i, v in enumerate(b.values):
+                            if any(y is x for y in ast.walk(v)) and any(mentions_size(u) for u in b.values[:i]):
+                                in_stmt_guard = True
+                    if isinstance(b, ast.IfExp) and mentions_size(b.test) and any(y is x for y in ast.walk(b)):
+                        in_stmt_guard = True
+                if not sized and not in_stmt_guard:
+                    bad = x
+    ctx.decide("C13.i", f, what, bad is None, "`%s` raises ValueError for an input without elements" % (ast.unparse(bad) if bad is not None else "",),
+               node=bad, key="empty-input", engine="KB")
 
 
 def offset_contract(ctx, tk):
